@@ -81,6 +81,18 @@ def c09_cases(rng, n):
             case["texts"] = ["%s / %s" % (ty_cddl(A), ty_cddl(B)), ty_cddl(A), ty_cddl(B)]
             case["combine"] = "or"
         elif kind in ("and", "within"):
+            if rng.random() < 0.35:
+                # array operands, the second one an inline choice of array types
+                def arr_of(lo, hi, el):
+                    e = ("ent", None, False, ("ref", el))
+                    return ("arr", e if (lo, hi) == (1, 1) else ("occ", lo, hi, e))
+                A = arr_of(*rng.choice([(2, None, "int"), (1, None, "uint"), (0, 1, "int"), (2, 3, "int")]))
+                B = ("or", arr_of(0, None, "uint"), arr_of(0, None, rng.choice(["nint", "int", "tstr"])))
+                if rng.random() < 0.5:
+                    B = ("or", B[2], B[1])
+                case["types"] = [A, B]
+                docs = [("arr", []), ("arr", [("int", 1)]), ("arr", [("int", -1)]), ("arr", [("int", 1), ("int", 2)]),
+                        ("arr", [("int", -1), ("int", -2)]), ("arr", [("int", 1), ("int", -2)]), ("arr", [("txt", "a")])]
             case["texts"] = ["%s .%s %s" % (t2_cddl(A), kind, t2_cddl(B)), ty_cddl(A), ty_cddl(B)]
             case["combine"] = "and"
         elif kind == "ne-eq":
@@ -316,7 +328,16 @@ def refs_in(t, acc=None):
 def refactor(rng, S):
     """returns (kind, cddl text of the refactored schema) or None"""
     rules = list(S.rules)
-    kind = rng.choice(["name-intro", "inline", "parens", "rename", "add-rules", "reorder", "incr-choice", "socket", "generic"])
+    kind = rng.choice(["name-intro", "inline", "parens", "rename", "add-rules", "reorder", "incr-choice", "socket", "generic", "generic-ctl"])
+    if kind == "generic-ctl":
+        # instantiating a generic rule whose parameter is the TARGET of a control vs substituting by hand:
+        #   r0 = b<A>  b<t> = t .op ARG      ==      r0 = (A) .op ARG
+        A = rng.choice([("range", 0, 10, True), ("range", 5, 20, False), ("ref", "uint"), ("ref", "int"), ("or", ("ref", "uint"), ("ref", "tstr")),
+                        ("ctl", "lt", ("ref", "int"), ("lit", ("int", 8))), ("ref", "tstr"), ("ctl", "size", ("ref", "tstr"), ("lit", ("int", 2)))])
+        op, ARG = rng.choice([("and", ("range", 5, 20, True)), ("within", ("range", 5, 20, True)), ("and", ("ref", "uint")), ("lt", ("lit", ("int", 7))),
+                              ("ge", ("lit", ("int", 3))), ("ne", ("lit", ("int", 6))), ("size", ("lit", ("int", 1))), ("within", ("ref", "number"))])
+        return kind, ("r0 = %s .%s %s\n" % (t2_cddl(A), op, t2_cddl(ARG)), "r0 = b<%s>\nb<t> = t .%s %s\n" % (t2_cddl(A) if A[0] == "or" else ty_cddl(A), op, t2_cddl(ARG)),
+                      Schema([("r0", "type", ("ctl", op, A, ARG))]))
     type_rules = [i for i, (_, k, _) in enumerate(rules) if k == "type"]
     ri = rng.choice(type_rules)
     name, _, body = rules[ri]
@@ -424,14 +445,30 @@ def run_c08(prop, prop_file, tier, seed):
         if r is None:
             continue
         kind, text2 = r
-        for d in docs_for(rng, S, False, 3):
-            items.append((S.cddl(), d))
+        text1 = S.cddl()
+        if kind == "generic-ctl":
+            text1, text2, S = text2
+            dd = [("int", x) for x in (0, 3, 5, 6, 7, 10, 15, 20, 25, -1)] + [("txt", "a"), ("txt", "ab"), ("flt", 22)]
+        else:
+            dd = docs_for(rng, S, False, 3)
+        for d in dd:
+            items.append((text1, d))
             items.append((text2, d))
             meta.append((kind, S, text2, d))
     jv, cv = both_modes(drv, items, rng)
     hist, known_hits, nviol, evals, distinct = {}, {}, 0, 0, set()
     kfs = {"json": {k["id"]: k for k in common.known_findings("C01")}, "cbor": {k["id"]: k for k in common.known_findings("C02")}}
     kf8 = {k["id"]: k for k in common.known_findings(prop)}
+    for kf in kf8.values():
+        bad = 0
+        for c in kf["witness"]["cases"]:
+            o = runner.impl_json_text(drv, [(sc, c["doc"]) for sc in c["schemas"]])
+            if len({V(x) for x in o}) > 1:
+                bad += 1
+        if bad:
+            res.known(kf)
+        else:
+            res.notes.append("finding %s apparently repaired" % kf["id"])
     for mi, (kind, S, text2, d) in enumerate(meta):
         for mode, outs in (("json", jv), ("cbor", cv)):
             a, b = outs[2 * mi], outs[2 * mi + 1]
@@ -446,7 +483,7 @@ def run_c08(prop, prop_file, tier, seed):
                 continue
             if V(a) != V(b):
                 zs = {z for z in zones.zones(S, d, mode) if z in kfs[mode]}
-                k8 = "kf-c08-%s" % kind
+                k8 = "kf-c08-generic-param-as-control-target"
                 if k8 in kf8 and c08_zone(kind, S, text2, d, mode, a, b):
                     known_hits[k8] = known_hits.get(k8, 0) + 1
                     res.known(kf8[k8])
@@ -475,7 +512,13 @@ def run_c08(prop, prop_file, tier, seed):
 
 
 def c08_zone(kind, S, text2, d, mode, a, b):
-    return True
+    """narrow classifier of kf-c08-generic-param-as-control-target: the generic parameter is the target of a
+    comparison / .size control, or of .and/.within whose controller is a plain type name"""
+    if kind != "generic-ctl":
+        return False
+    t = S.rules[0][2]
+    op, arg = t[1], t[3]
+    return op in ("lt", "le", "gt", "ge", "eq", "ne", "size") or (op in ("and", "within") and arg[0] == "ref")
 
 
 # ---------------------------------------------------------------------------
@@ -544,19 +587,26 @@ def run_c10(prop, prop_file, tier, seed):
         root = S.rules[0][2]
         if root[0] != "map" and rng.random() < 0.7:
             S = Schema([("r0", "type", ("map", gen.SchemaGen(rng, o).mgroup(1)))] + S.rules[1:]) if False else S
-        for d in docs_for(rng, S, cb, 3):
-            if not has_map(d, 1):
+        base_docs = docs_for(rng, S, cb, 3)
+        # targeted near-misses for maps at the root: the empty map, and every single-member deletion of an inhabitant
+        for d0 in list(base_docs[:1]):
+            if d0[0] == "map":
+                base_docs.append(("map", []))
+                for j in range(min(len(d0[1]), 4)):
+                    base_docs.append(("map", d0[1][:j] + d0[1][j + 1:]))
+        for d in base_docs:
+            if d[0] != "map" and not has_map(d, 1):
                 continue
             d2 = permute_maps(rng, d)
             S2 = Schema([(nm, k, permute_members(rng, b)) for (nm, k, b) in S.rules])
             items += [(S.cddl(), d), (S.cddl(), d2), (S2.cddl(), d)]
-            meta.append((S, S2, d, d2))
+            meta.append((S, S2, d, d2, cb))
     jv, cv = both_modes(drv, items, rng)
     # duplicate / equivalent keys in CBOR maps: compared with the model (every physical pair must be accounted for)
     dup_pairs = []
-    for i in range(200 if tier == "quick" else 5000):
+    for i in range(800 if tier == "quick" else 8000):
         key = rng.choice([("txt", "a"), ("int", 1), ("txt", "k1")])
-        vt_ = rng.choice([("ref", "int"), ("ref", "tstr"), ("ref", "any")])
+        vt_ = rng.choice([("ref", "int"), ("ref", "tstr"), ("ref", "any"), ("ref", "any")])
         members = ("ent", ("lit", key), True, vt_)
         r = rng.random()
         if r < 0.4:
@@ -575,11 +625,13 @@ def run_c10(prop, prop_file, tier, seed):
     dup_model = runner.model(orc, dup_pairs, False)
     hist, known_hits, nviol, evals, distinct = {}, {}, 0, 0, set()
     kfs = {"json": {k["id"]: k for k in common.known_findings("C01")}, "cbor": {k["id"]: k for k in common.known_findings("C02")}}
-    for mi, (S, S2, d, d2) in enumerate(meta):
+    for mi, (S, S2, d, d2, cb) in enumerate(meta):
         for mode, outs in (("json", jv), ("cbor", cv)):
             a, b, c = outs[3 * mi], outs[3 * mi + 1], outs[3 * mi + 2]
             if a is None or b is None or c is None:
                 continue
+            if mode == "json" and cb:
+                continue        # schema uses CBOR-only constructs
             evals += 2
             hist[mode] = hist.get(mode, 0) + 2
             distinct.add((S.cddl(), ast.val_sexp(d), ast.val_sexp(d2)))
